@@ -574,6 +574,16 @@ def takeOpt (l : Option Nat) (xs : List γ) : List γ :=
   | some n => xs.take n
   | none => xs
 
+/-! ## Memtable source -/
+
+/-- Ordered branch of `MemTableSource::run` (`flow/operators/memtable_source.rs`): matching rows
+    of the active memtable, then of every passive memtable, are collected — `collect_rows_from_memtable`
+    and the guard in front of the passive loop stop once `lim` rows are collected —, sorted with
+    `compare_scalar_values`, and cut to `lim`.  For ORDER BY queries `determine_limit` defers the
+    limit (`lim = none`), so nothing stops the collection and nothing is cut. -/
+def memtableSourceOrdered (le : α → α → Bool) (lim : Option Nat) (active : List α) (passives : List (List α)) : List α :=
+  takeOpt lim (isort le (takeOpt lim (active ++ passives.flatten)))
+
 /-! ## Handler -/
 
 inductive HandlerVerdict where
